@@ -8,14 +8,14 @@
  "replace_calls": {"parameter": "stub_parameter"},
  "link_repo": ["type.c"],
  "variants": {"f": ["-DV_P0=0", "-DV_PAREN=0", "-DV_P1=0", "-DV_Q1=0", "-DV_N1=0", "-DV_N2=0"], "pf_S": ["-DV_P0=1", "-DV_PAREN=0", "-DV_P1=0", "-DV_Q1=0", "-DV_N1=0", "-DV_N2=1"], "f_SS": ["-DV_P0=0", "-DV_PAREN=0", "-DV_P1=0", "-DV_Q1=0", "-DV_N1=0", "-DV_N2=2"], "pf_SS": ["-DV_P0=1", "-DV_PAREN=0", "-DV_P1=0", "-DV_Q1=0", "-DV_N1=0", "-DV_N2=2"], "LpfR_S": ["-DV_P0=0", "-DV_PAREN=1", "-DV_P1=1", "-DV_Q1=0", "-DV_N1=0", "-DV_N2=1"], "LpfSR_S": ["-DV_P0=0", "-DV_PAREN=1", "-DV_P1=1", "-DV_Q1=0", "-DV_N1=1", "-DV_N2=1"], "pLpfSR_S": ["-DV_P0=1", "-DV_PAREN=1", "-DV_P1=1", "-DV_Q1=0", "-DV_N1=1", "-DV_N2=1"], "LfSR_S": ["-DV_P0=0", "-DV_PAREN=1", "-DV_P1=0", "-DV_Q1=0", "-DV_N1=1", "-DV_N2=1"], "LpfSR_SS": ["-DV_P0=0", "-DV_PAREN=1", "-DV_P1=1", "-DV_Q1=0", "-DV_N1=1", "-DV_N2=2"], "LpfR_SS": ["-DV_P0=0", "-DV_PAREN=1", "-DV_P1=1", "-DV_Q1=0", "-DV_N1=0", "-DV_N2=2"], "LfR_S": ["-DV_P0=0", "-DV_PAREN=1", "-DV_P1=0", "-DV_Q1=0", "-DV_N1=0", "-DV_N2=1"], "pLpcfR": ["-DV_P0=1", "-DV_PAREN=1", "-DV_P1=1", "-DV_Q1=1", "-DV_N1=0", "-DV_N2=0"], "LpcfSR_S": ["-DV_P0=0", "-DV_PAREN=1", "-DV_P1=1", "-DV_Q1=1", "-DV_N1=1", "-DV_N2=1"]}, "canary_variant": "LpcfSR_S",
- "unwind": 7,
+ "unwind": 3, "unwindset": ["declarator.0:6", "declaratortypes.4:5", "harness.0:4", "harness.4:6", "harness.5:4", "harness.6:7"],
  "kind": "bounded",
- "bound": "13 declarator shapes with 0..3 suffixes (each an array `[N]`, 1 <= N <= 1000, or a function `(P)`), optional pointer prefix outside/inside one level of parentheses, base type int with any of const/volatile",
+ "bound": "13 declarator shapes with 0..3 suffixes (each an array `[N]`, N = 3, 5, 7 by position, or a function `(P)`), optional pointer prefix outside/inside one level of parentheses, base type int with any of const/volatile",
  "timeout": 120, "replay": false,
  "assumes": ["next()/consume()/expect()/peek() are a token-script stand-in (PP units); attr()/gnuattr() see no attribute (ATTR units)",
              "parameter() (DECL.parameter) is replaced by a stub that consumes the one script token of `( P )` and yields an unnamed int parameter; assignexpr() (expr.c) by a stub that consumes the length token and yields a constant expression of type int; eval() is the identity on it (EVAL units); mkscope/delscope/scopeputdecl (SCOPE.chain) are recorders; util.c listinsert re-stated (util.c defines fatal()); type.c is the real file",
              "shape variants listed in the header: f, *f S, f S S, *f S S, (*f) S, (*f S) S, *(*f S) S, (f S) S, (*f S) S S, (*f) S S, (f) S, *(*const f), (*const f S) S  with every S symbolically `[N]` or `(P)`",
-             "array lengths are constants 1..1000 (zero: DECL.declaratortypes.arrzero, which fails on the pinned tree; arithmetic: DECL.arrsize)",
+             "array lengths are the constants 3, 5, 7 (zero: DECL.declaratortypes.arrzero, which fails on the pinned tree; arithmetic: DECL.arrsize)",
              "no native replay: replaced callee is static"]
 }
 */
